@@ -130,7 +130,7 @@ def run(rep: C.Report) -> None:
                 "^addp_": dict(name="Ob1 add_page stores a canonical title unchanged and passes the fields through", functions=["core.py:Wtp.add_page", "core.py:Wtp._template_to_body"], bounds=f"prefix of the namespace + 1..{2 if quick else 3} symbolic chars; body <= 3 symbolic chars; model None or given; redirect or not"),
                 "^defaults_ok": dict(name="Ob3 add_default_templates adds exactly the absent helpers and never overwrites a page that is there (text, empty includable part, or a dangling redirect)", functions=["dumpparser.py:add_default_templates"], bounds="all 16 presence patterns of the four helper templates"),
             },
-            timeout=90 if quick else 400,
+            timeout=180 if quick else 400,
             src=src,
             batch=3,
             twins=False,
